@@ -25,6 +25,10 @@ type C14Episode struct {
 	// CloseAfterMs > 0: the coordinator closes the session that long after
 	// the first request arrived (requests still pending), then reconnects.
 	CloseAfterMs int `json:"close_after_ms"`
+	// OneWay: one-way requests (announcements) sent alongside, 0 = none; their
+	// replies arrive (answered) or are swallowed by the coordinator (lost)
+	OneWay     int  `json:"one_way,omitempty"`
+	OneWayLost bool `json:"one_way_lost,omitempty"`
 }
 
 type C14Plan struct {
@@ -56,6 +60,10 @@ func genC14(seed uint64, tier string) *C14Plan {
 		}
 		if g.Prob(0.15) {
 			e.CloseAfterMs = simkit.Pick(g, []int{1, 50, 700, 4000})
+		}
+		if g.Prob(0.3) {
+			e.OneWay = g.Range(1, 3)
+			e.OneWayLost = g.Bool()
 		}
 		p.Episodes = append(p.Episodes, e)
 	}
@@ -191,6 +199,22 @@ func runC14(t *testing.T, seed uint64, planJSON []byte, tier string) (res *Resul
 				callers[c.name] = c
 				list = append(list, c)
 			}
+			if ep.OneWay > 0 {
+				// one-way requests (the client's announcements) whose replies may never come
+				tc.Rules = nil
+				if ep.OneWayLost {
+					tc.Rules = []simtc.Rule{{Code: simtc.TRegTM, Nth: 0, Action: simtc.ActSilent}}
+					sim.Fault("tc-oneway-reply-lost")
+				}
+				n := ep.OneWay
+				sim.Go("one-way", func() {
+					for k := 0; k < n; k++ {
+						if err := getty.GetGettyRemotingClient().SendAsyncRequest(message.RegisterTMRequest{AbstractIdentifyRequest: message.AbstractIdentifyRequest{Version: "1.5.2", ApplicationId: "simapp", TransactionServiceGroup: "simgroup"}}); err != nil {
+							sim.Note("one-way request: %v", err)
+						}
+					}
+				})
+			}
 			for _, c := range list {
 				c := c
 				sim.Go("caller", func() {
@@ -249,6 +273,7 @@ func runC14(t *testing.T, seed uint64, planJSON []byte, tier string) (res *Resul
 			// let late replies and time-outs happen, then look at the bookkeeping
 			t2 := sim.Now()
 			sim.Run(func() bool { return sim.Now()-t2 > 45*time.Second && sim.Enabled() == 0 })
+			tc.Rules = nil
 			res.Episodes++
 			futAfter := getty.VerifPendingFutures()
 			parkedAfter := parkedInResponseDelivery()
